@@ -119,6 +119,7 @@ pub fn shapes(thorough: bool) -> Vec<Shape> {
         Stage::MoveWait,
         Stage::SyncId,
         Stage::MoveWaitFunc,
+        Stage::Fir(2),
     ];
     let mut v = vec![Shape::Chain(vec![])];
     for s in &stages {
@@ -141,6 +142,8 @@ pub fn shapes(thorough: bool) -> Vec<Shape> {
             (Stage::Skip(1), Stage::Delay(2)),
             (Stage::Resamp(2, 1), Stage::MoveWait),
             (Stage::MoveWaitFunc, Stage::Resamp(1, 2)),
+            (Stage::Fir(2), Stage::Fir(3)),
+            (Stage::Resamp(2, 1), Stage::Fir(3)),
         ]
     };
     for (a, b) in pairs {
@@ -196,10 +199,14 @@ pub fn run(tier: &str, shard: Option<&str>) -> Report {
                 if !thorough && per_page == 4 && pages == 2 {
                     continue;
                 }
-                for (src_len, file_repeat) in lens
+                for (src_len, file_repeat, vec_repeat) in lens
                     .iter()
-                    .map(|l| (*l, 0u64))
-                    .chain(if matches!(shape, Shape::Chain(_)) { vec![(1usize, 2u64), (cap + 1, 2), (cap, 3), (2, 1)] } else { vec![] })
+                    .map(|l| (*l, 0u64, 0u64))
+                    .chain(if matches!(shape, Shape::Chain(_)) {
+                        vec![(1usize, 2u64, 0u64), (cap + 1, 2, 0), (cap, 3, 0), (2, 1, 0), (1, 0, 2), (1, 0, 3), (2, 0, 2), (cap + 1, 0, 2)]
+                    } else {
+                        vec![]
+                    })
                     .collect::<Vec<_>>()
                 {
                     let probe = GraphSpec {
@@ -208,6 +215,7 @@ pub fn run(tier: &str, shard: Option<&str>) -> Report {
                         pages,
                         src_len,
                         file_repeat,
+                        vec_repeat,
                         order: vec![],
                     };
                     if probe.degenerate() {
